@@ -49,3 +49,14 @@ def ghost(name, value=None):
 def assume(cond):
     if not cond:
         raise ScriptExhausted('assume(False) reached in native replay')
+
+
+def require(cond, name):
+    """interface precondition: an obligation under pyvc, a plain check natively"""
+    if not cond:
+        raise AssertionError('interface precondition violated: %s' % name)
+
+
+def next_call(target):
+    """scripted result of a callee replaced by its contract"""
+    return _next('call:' + target)
